@@ -470,8 +470,19 @@ def rendered_source(items):
     ctx = Ctx.cur
     if ctx is None:
         return None
-    ent = ctx.__dict__.get('_rendered', {}).get(_render_key(items))
-    return None if ent is None else ent[0]
+    reg = ctx.__dict__.get('_rendered', {})
+    ent = reg.get(_render_key(items))
+    if ent is not None:
+        return ent[0]
+    # a registered rendering right-padded with concrete zeros: the value times a power of ten
+    k = 0
+    while k < len(items) and type(items[len(items) - 1 - k]) is not SymInt and items[len(items) - 1 - k] == 48:
+        k += 1
+    if 0 < k < len(items):
+        ent = reg.get(_render_key(items[:len(items) - k]))
+        if ent is not None:
+            return ent[0] * 10 ** k
+    return None
 
 
 def percent_format(fmt, args):
